@@ -265,6 +265,8 @@ def classify_site(idx, rep, own, s, counts):
             verdicts.append(self_write_verdict(idx, f, o[1], in_ctor, s))
         elif o[0] == "global":
             verdicts.append(("REFUTED", f"writes module-level object `{o[1]}`", f"global:{o[1]}"))
+        elif o[0] == "field":
+            verdicts.append(("REFUTED", f"writes into `{o[1]}`, a field of an object passed by the caller", f"field:{o[1]}"))
         elif o[0] == "unknown":
             verdicts.append(("UNDECIDED", f"target of unknown origin `{o[1]}`", ""))
     rule = "operator-mutation" if any(o[0] == "self" or (o[0] == "param" and o[1] == "self") for o in s.origins) else "write-site"
@@ -302,9 +304,11 @@ def self_write_verdict(idx, f, attr, in_ctor, s):
                                                       for c in df.calls(m.node))]
     if callers and all(m.name in CONSTRUCTOR_METHODS for m in callers) and top.name.startswith("_"):
         return ("PROVED", f"helper {top.name} is only called from constructors", "")
-    reads = repr_reads(idx, ci)
     if not attr:
         return ("UNDECIDED", "whole-object write", "")
+    if "LinearOperator" not in [c.name for c in idx.mro(ci)]:
+        return ("REFUTED", f"{ci.name}.{top.name} writes in place into `self.{attr}`, a value the caller handed to the {ci.name} object", f"self.{attr}")
+    reads = repr_reads(idx, ci)
     if attr in reads:
         return ("REFUTED", f"{ci.name}.{top.name} modifies `self.{attr}` after construction; the attribute is read by the representation "
                            f"(product / densify / metadata) of {ci.name}", f"self.{attr}")
